@@ -4,9 +4,18 @@ from checks import enginelib as E
 from checks.enginelib import charts, shrink
 from checks import c01
 
-THEOREMS = []
-FINISH = {"level": "exploration"}   # upgraded to "proof" once the theorems of Properties/C13.lean are in place
-LEAN_FILES = ["UscxmlVerif.Properties.C13"]
+P = "UscxmlVerif.Properties.C13."
+THEOREMS = [
+    (P + "notifications_well_nested", "proved", "for every chart, both engine models and every sequence of API operations (step, run to quiescence, receive, cancel, getState, reset, destroy) of any length, the notifications observed so far are accepted by the nesting automaton Spec.Nesting: every before has its after, a micro-step bracket holds exits, then transitions, then entries, content is reported only inside an exit / transition / entry / the completion, nothing but event, invocation, stable-configuration, completion and issue notices outside a bracket, never two stable-configuration notices without an event or micro-step in between"),
+    (P + "good_run", "proved", "the invariant behind it: the automaton's resting stack agrees with the engine's flags (a stable-configuration notice is the last thing that happened only if the engine is neither pristine-less unstable nor in a spontaneous phase)"),
+    (P + "good_apply", "proved", "one API operation keeps the invariant"),
+    ("UscxmlVerif.Proofs.Nest.large_step_nest", "proved", "one call of LargeMicroStep::step: its notifications take the automaton from one resting stack to another"),
+    ("UscxmlVerif.Proofs.Nest.fast_step_nest", "proved", "the same for FastMicroStep::step"),
+    ("UscxmlVerif.Proofs.Nest.nest_exec", "proved", "executable content (if/elseif/else, foreach, failing elements that abort their block) is reported as properly nested bc/ac pairs for every content tree"),
+    (P + "log_is_rendering", "proved", "the log compared with the compiled interpreter is the rendering of exactly these tokens"),
+]
+FINISH = {"level": "proof"}
+LEAN_FILES = ["UscxmlVerif.Properties.C13", "UscxmlVerif.Proofs.Nest", "UscxmlVerif.Spec.Nesting"]
 
 
 def nest_results(ctx, traces):
@@ -47,6 +56,12 @@ def run_engine(ctx, engine, cases, suite):
             if c is not None: bad = "two stable-configuration notices without a macrostep in between (token %d)" % c
         if bad is None:
             st["well_nested"] += 1
+            if H[i] != M[i] and not any(p.endswith("-tie.txt") for p, _ in ctx.violations):
+                # the theorem is about the model's tokens: a trace of the code the model does not reproduce is outside it
+                k = E.first_diff(toks, M[i].split(" "))
+                ctx.violation("%s-tie" % suite, suite, [E.case_line(engine, d, evs)], found_input=False,
+                              detail="engine %s: the notifications of the compiled interpreter are well nested on this run but differ from the model's at token %d (I %s / M %s): notifications_well_nested does not cover this behaviour\nchart: %s\nevents: %s"
+                              % (engine, k, " ".join(toks[max(0, k - 3):k + 3]), " ".join(M[i].split(" ")[max(0, k - 3):k + 3]), charts.sexpr(d), evs))
             continue
         st["violations"] += 1
         if len(ctx.violations) < 3:
